@@ -514,12 +514,14 @@ class CFG:
             val._trim_cache[bottomup_only] = val
             return val
 
-        T = {self.S}
+        T = {self.S} & C
         agenda.update(T)
         while agenda:
             x = agenda.pop()
             for e in incoming[x]:
                 # assert e.head in T
+                if not all((b in C) for b in e.body):
+                    continue  # a rule with a non-generating symbol is useless
                 for b in e.body:
                     if b not in T and b in C:
                         T.add(b)
